@@ -32,6 +32,15 @@ def run(tier, repo):
             a = arms.get(0x18)
             rp.check(a is not None and len(a["steps"]) == 1 and a["steps"][0][0] == "complete", "REP-SHAPE", "type-0x18", s, "heartbeat arm is not one complete() message", found=(a["steps"][0][0] if a and a["steps"] else None))
         repetition_progress(rp, r["code"], "record_with_header", s)
+    # an Err::Failure anywhere inside a message grammar aborts many1 instead of ending the list at the malformed message
+    rp.rule("NO-FAILURE", "no parser reachable from the record payload constructs Err::Failure or uses cut(): decoding stops at the first malformed message and returns the messages before it")
+    rr = res.get("tls_record::parse_tls_record_with_header")
+    if rr and "full_code" in rr:
+        import json as _json
+        txt = _json.dumps(rr["full_code"])
+        has = '"Failure"' in txt or '["cut"' in txt
+        rp.check(not has, "NO-FAILURE", "record-payload", site(f) if f else "src/tls_record.rs", "a message parser can return Err::Failure, which makes many1 fail the whole record after earlier messages were decoded",
+                 why_ok="no Err::Failure / cut in the payload grammar")
     # one-step = two-step
     r1 = res.get("tls_record::parse_tls_plaintext")
     if r and r1 and "code" in r and "code" in r1:
